@@ -1,6 +1,7 @@
 ENGINES = [
     {"name": "check.py", "path": "/verif/check.py", "serves_properties": [], "kind_free_text": "driver: rebuilds libjwt from /repo's working tree (ASan+UBSan / fuzzer / TSan flavors), runs harness workers, merges stats, writes evidence, replays and classifies violations against known-findings.jsonl"},
     {"name": "rapidcheck", "path": "/verif/harness", "serves_properties": ["C01"], "kind_free_text": "rapidcheck generators with shrinking; RC_PARAMS seed derived from VERIF_SEED and worker index; one process per worker"},
+    {"name": "libfuzzer", "path": "/verif/fuzz", "serves_properties": ["C06", "C07"], "kind_free_text": "libFuzzer targets built with -fsanitize=fuzzer,address,undefined against a fuzzer-no-link build of libjwt; 16 independent processes, corpus copied from /verif/corpus"},
     {"name": "enum", "path": "/verif/harness", "serves_properties": ["C02", "C03", "C11"], "kind_free_text": "exhaustive enumerators over the finite domains the properties name, same oracle code as the random mode"},
 ]
 NOTES = "Technique family: property-based testing and fuzzing (rapidcheck, libFuzzer, exhaustive enumeration, fork-per-fault allocation failure injection, TSan stress). See DESIGN.md."
@@ -18,6 +19,14 @@ CLAIMS = {
                 technique="exhaustive enumeration of checker/builder configurations x token shapes with a two-sided oracle for key-less checkers",
                 text="All configurations (no key, key with/without alg attr, explicit alg, callback selecting key/alg/both) x header alg variants x signature shapes x 2-5 segment shapes are enumerated; keyed checkers must never accept empty signatures or alg none, key-less checkers accept exactly alg none with an empty third segment, builders with a key never emit unsigned tokens.",
                 note="same model and reference verifier as C02"),
+    "C06": dict(engine="libfuzzer", level="exploration", design_ref="DESIGN.md section 4 C06",
+                technique="coverage-guided fuzzing (libFuzzer, ASan+UBSan+LSan) of raw token text and of structure-aware (header, payload, signature) triples, semantic oracle inside the target",
+                text="Two in-process targets over 34 checker configurations on both providers; every iteration resets provider/allocator/clock; a verdict 0 must satisfy the structural clauses of the statement and (keyed) the independent verifier; leaks are detected per iteration. Exploration with measured reach (share of inputs passing dot scans, header base64, JSON, claims, provider verify).",
+                note="sanitizer runtimes and libFuzzer trusted; -seed pins a campaign only approximately; the nettle Ed448 last-byte leniency is excluded by construction and counted"),
+    "C07": dict(engine="libfuzzer", level="exploration", design_ref="DESIGN.md section 4 C07",
+                technique="coverage-guided fuzzing (libFuzzer, ASan+UBSan+LSan) of raw JWKS bytes and of a member-by-member JWK shape generator through all load entry points, keyring well-formedness oracle inside the target",
+                text="Raw bytes (seeded with the repository's key files) and generated JWK shapes (every member absent / wrong JSON type / empty / non-base64 / wrong length / correct) through jwks_create*, jwks_load*, fromfp and fromfile on both providers; oracle: set error iff not JSON, item count and order follow the document, each item is errored-with-message or a usable key (material checked, then actually used by a checker and builder).",
+                note="jansson decides what is JSON; sanitizer runtimes and libFuzzer trusted; keys-member-not-an-array documents are checked for memory safety and item well-formedness only"),
     "C11": dict(engine="enum", level="exploration", design_ref="DESIGN.md section 4 C11",
                 technique="exhaustive enumeration of small inputs + seeded random buffers against an independent RFC 4648 codec, under ASan/UBSan",
                 text="Every byte string of length 0-3 is encoded and round-tripped, every 1-4 character string over a class-representative alphabet (quick) or all 255 NUL-free bytes (thorough) is decoded and compared with an independent codec and with the reject rules of the statement; buffer arithmetic is exercised for every length 0-4096 and random lengths to 64 KiB under ASan. Exhaustive for the enumerated domains, sampled beyond.",
